@@ -60,20 +60,20 @@ fn c12_transfer() {
 
     <T as token::Interface>::transfer(env.clone(), from.clone(), to.clone(), amount);
 
-    assert!(shim::authed(&from), "OBL C07.transfer_needs_from: a transfer debits `from` only under `from`'s own authorisation");
-    assert!(amount >= 0, "OBL C12.transfer_rejects_negative");
-    assert!(bf0 >= amount, "OBL C12.transfer_needs_balance");
+    soroban_sdk::obl!(shim::authed(&from), "OBL C07.transfer_needs_from: a transfer debits `from` only under `from`'s own authorisation");
+    soroban_sdk::obl!(amount >= 0, "OBL C12.transfer_rejects_negative");
+    soroban_sdk::obl!(bf0 >= amount, "OBL C12.transfer_needs_balance");
     if from != to {
-        assert!(bal_post(&from) == bf0 - amount && bal_post(&to) == bt0.wrapping_add(amount), "OBL C12.transfer_moves_exact_amount: exactly `amount` leaves one balance and enters the other");
+        soroban_sdk::obl!(bal_post(&from) == bf0 - amount && bal_post(&to) == bt0.wrapping_add(amount), "OBL C12.transfer_moves_exact_amount: exactly `amount` leaves one balance and enters the other");
     } else {
-        assert!(bal_post(&from) == bf0, "OBL C12.self_transfer_neutral");
+        soroban_sdk::obl!(bal_post(&from) == bf0, "OBL C12.self_transfer_neutral");
     }
-    assert!(bal_post(&from) >= 0 && bal_post(&to) >= 0, "OBL C12.balances_stay_nonnegative");
-    assert!(
+    soroban_sdk::obl!(bal_post(&from) >= 0 && bal_post(&to) >= 0, "OBL C12.balances_stay_nonnegative");
+    soroban_sdk::obl!(
         pers().changed_only(&[Words::of(&bal_key(&from)), Words::of(&bal_key(&to))]) && inst().n_changed() == 0 && temp().n_changed() == 0 && shim::n_calls() == 0,
         "OBL C12.transfer_frame: no other balance, allowance or setting changes (total supply unchanged)"
     );
-    assert!(shim::n_events() == 1 && shim::event_is(0, &(symbol_short!("transfer"), from.clone(), to.clone()), &amount), "OBL C12.transfer_event: one standard transfer event naming the true parties and amount");
+    soroban_sdk::obl!(shim::n_events() == 1 && shim::event_is(0, &(symbol_short!("transfer"), from.clone(), to.clone()), &amount), "OBL C12.transfer_event: one standard transfer event naming the true parties and amount");
     kani::cover!(from != to && amount > 0, "COVER c12_transfer moved");
     kani::cover!(from == to, "COVER c12_transfer self");
 }
@@ -89,7 +89,7 @@ fn c12_transfer_notrap() {
     kani::assume(shim::auth_granted(from.0) && amount >= 0 && bf0 >= amount && bt0.checked_add(amount).is_some());
     shim::set_no_trap_mode();
     <T as token::Interface>::transfer(env.clone(), from.clone(), to.clone(), amount);
-    assert!(true, "OBL C12.transfer_accepts_honest_call: reached the end without a trap");
+    soroban_sdk::obl!(true, "OBL C12.transfer_accepts_honest_call: reached the end without a trap");
     kani::cover!(true, "COVER c12_transfer_notrap returned");
 }
 
@@ -105,16 +105,16 @@ fn c12_approve() {
 
     <T as token::Interface>::approve(env.clone(), from.clone(), spender.clone(), amount, exp);
 
-    assert!(shim::authed(&from), "OBL C07.approve_needs_from: an allowance over `from`'s funds is granted only under `from`'s authorisation");
-    assert!(amount >= 0, "OBL C12.approve_rejects_negative");
-    assert!(!(amount > 0 && exp < seq), "OBL C12.approve_rejects_past_expiration");
-    assert!(allow_post(&from, &spender) == (amount, exp), "OBL C12.approve_stores_exact");
-    assert!(
+    soroban_sdk::obl!(shim::authed(&from), "OBL C07.approve_needs_from: an allowance over `from`'s funds is granted only under `from`'s authorisation");
+    soroban_sdk::obl!(amount >= 0, "OBL C12.approve_rejects_negative");
+    soroban_sdk::obl!(!(amount > 0 && exp < seq), "OBL C12.approve_rejects_past_expiration");
+    soroban_sdk::obl!(allow_post(&from, &spender) == (amount, exp), "OBL C12.approve_stores_exact");
+    soroban_sdk::obl!(
         amount == 0 || matches!(shim::temp_ttl_requested(&allow_key(&from, &spender)), Some(l) if (l as u64) + (seq as u64) >= exp as u64),
         "OBL C12.allowance_lives_until_expiration: for a positive allowance the entry's lifetime is extended at least up to its expiration ledger (usable up to and including it)"
     );
-    assert!(temp().changed_only(&[Words::of(&allow_key(&from, &spender))]) && pers().n_changed() == 0 && inst().n_changed() == 0, "OBL C12.approve_frame: only the allowance of exactly (from, spender) changes");
-    assert!(shim::n_events() == 1 && shim::event_is(0, &(Symbol::new(&env, "approve"), from.clone(), spender.clone()), &(amount, exp)), "OBL C12.approve_event");
+    soroban_sdk::obl!(temp().changed_only(&[Words::of(&allow_key(&from, &spender))]) && pers().n_changed() == 0 && inst().n_changed() == 0, "OBL C12.approve_frame: only the allowance of exactly (from, spender) changes");
+    soroban_sdk::obl!(shim::n_events() == 1 && shim::event_is(0, &(Symbol::new(&env, "approve"), from.clone(), spender.clone()), &(amount, exp)), "OBL C12.approve_event");
     kani::cover!(amount > 0 && exp == seq, "COVER c12_approve expiring this ledger");
 }
 
@@ -125,8 +125,8 @@ fn c12_allowance_query() {
     let (from, spender) = (addr(), addr());
     let a0 = allow_pre(&from, &spender);
     let r = <T as token::Interface>::allowance(env.clone(), from.clone(), spender.clone());
-    assert!(r == usable(a0), "OBL C12.allowance_expiry: an allowance reads as granted up to and including its expiration ledger and as zero afterwards");
-    assert!(shim::no_effects() && shim::n_auth() == 0, "OBL C12.allowance_query_pure");
+    soroban_sdk::obl!(r == usable(a0), "OBL C12.allowance_expiry: an allowance reads as granted up to and including its expiration ledger and as zero afterwards");
+    soroban_sdk::obl!(shim::no_effects() && shim::n_auth() == 0, "OBL C12.allowance_query_pure");
     kani::cover!(a0.0 > 0 && a0.1 == shim::host().sequence && r > 0, "COVER c12_allowance usable on the expiration ledger");
     kani::cover!(a0.0 > 0 && a0.1.wrapping_add(1) == shim::host().sequence && a0.1 < u32::MAX && r == 0, "COVER c12_allowance worthless one ledger later");
 }
@@ -138,8 +138,8 @@ fn c12_balance_query() {
     let a = addr();
     let b0 = pers().pre::<_, i128>(&bal_key(&a)).unwrap_or(0);
     let r = <T as token::Interface>::balance(env.clone(), a.clone());
-    assert!(r == b0, "OBL C12.balance_query_agrees");
-    assert!(shim::no_effects() && shim::n_auth() == 0, "OBL C12.balance_query_pure");
+    soroban_sdk::obl!(r == b0, "OBL C12.balance_query_agrees");
+    soroban_sdk::obl!(shim::no_effects() && shim::n_auth() == 0, "OBL C12.balance_query_pure");
     kani::cover!(r != 0, "COVER c12_balance nonzero");
 }
 
@@ -155,25 +155,25 @@ fn c12_transfer_from() {
 
     <T as token::Interface>::transfer_from(env.clone(), spender.clone(), from.clone(), to.clone(), amount);
 
-    assert!(shim::authed(&spender), "OBL C07.transfer_from_needs_spender: a delegated transfer needs the spender's own authorisation");
-    assert!(amount >= 0, "OBL C12.transfer_from_rejects_negative");
-    assert!(usable(a0) >= amount, "OBL C12.transfer_from_needs_live_allowance: the allowance of exactly (from, spender) must cover the amount and not be expired");
-    assert!(bf0 >= amount, "OBL C12.transfer_from_needs_balance");
-    assert!(
+    soroban_sdk::obl!(shim::authed(&spender), "OBL C07.transfer_from_needs_spender: a delegated transfer needs the spender's own authorisation");
+    soroban_sdk::obl!(amount >= 0, "OBL C12.transfer_from_rejects_negative");
+    soroban_sdk::obl!(usable(a0) >= amount, "OBL C12.transfer_from_needs_live_allowance: the allowance of exactly (from, spender) must cover the amount and not be expired");
+    soroban_sdk::obl!(bf0 >= amount, "OBL C12.transfer_from_needs_balance");
+    soroban_sdk::obl!(
         if amount > 0 { allow_post(&from, &spender) == (a0.0 - amount, a0.1) } else { !temp().changed(&allow_key(&from, &spender)) },
         "OBL C12.transfer_from_spends_allowance_exactly: the allowance drops by exactly the amount spent, its expiration is kept"
     );
     if from != to {
-        assert!(bal_post(&from) == bf0 - amount && bal_post(&to) == bt0.wrapping_add(amount), "OBL C12.transfer_from_moves_exact_amount: the debit is against `from`, the credit goes to `to`");
+        soroban_sdk::obl!(bal_post(&from) == bf0 - amount && bal_post(&to) == bt0.wrapping_add(amount), "OBL C12.transfer_from_moves_exact_amount: the debit is against `from`, the credit goes to `to`");
     } else {
-        assert!(bal_post(&from) == bf0, "OBL C12.transfer_from_self_neutral");
+        soroban_sdk::obl!(bal_post(&from) == bf0, "OBL C12.transfer_from_self_neutral");
     }
-    assert!(bal_post(&from) >= 0 && bal_post(&to) >= 0 && allow_post(&from, &spender).0 >= 0, "OBL C12.transfer_from_nonnegative");
-    assert!(
+    soroban_sdk::obl!(bal_post(&from) >= 0 && bal_post(&to) >= 0 && allow_post(&from, &spender).0 >= 0, "OBL C12.transfer_from_nonnegative");
+    soroban_sdk::obl!(
         pers().changed_only(&[Words::of(&bal_key(&from)), Words::of(&bal_key(&to))]) && temp().changed_only(&[Words::of(&allow_key(&from, &spender))]) && inst().n_changed() == 0,
         "OBL C12.transfer_from_frame"
     );
-    assert!(shim::n_events() == 1 && shim::event_is(0, &(symbol_short!("transfer"), from.clone(), to.clone()), &amount), "OBL C12.transfer_from_event");
+    soroban_sdk::obl!(shim::n_events() == 1 && shim::event_is(0, &(symbol_short!("transfer"), from.clone(), to.clone()), &amount), "OBL C12.transfer_from_event");
     kani::cover!(amount > 0 && from != to && a0.1 == shim::host().sequence, "COVER c12_transfer_from on expiration ledger");
     kani::cover!(amount == 0, "COVER c12_transfer_from zero");
 }
@@ -189,7 +189,7 @@ fn c12_transfer_from_notrap() {
     kani::assume(shim::auth_granted(spender.0) && amount >= 0 && bf0 >= amount && bt0.checked_add(amount).is_some() && usable(a0) >= amount);
     shim::set_no_trap_mode();
     <T as token::Interface>::transfer_from(env.clone(), spender.clone(), from.clone(), to.clone(), amount);
-    assert!(true, "OBL C12.transfer_from_accepts_live_allowance: a sufficient, unexpired allowance (also on its expiration ledger) is honoured");
+    soroban_sdk::obl!(true, "OBL C12.transfer_from_accepts_live_allowance: a sufficient, unexpired allowance (also on its expiration ledger) is honoured");
     kani::cover!(amount > 0 && a0.1 == shim::host().sequence, "COVER c12_transfer_from_notrap on expiration ledger");
 }
 
@@ -203,11 +203,11 @@ fn c12_burn() {
 
     <T as token::Interface>::burn(env.clone(), from.clone(), amount);
 
-    assert!(shim::authed(&from), "OBL C07.burn_needs_from: tokens are burned only under their holder's authorisation");
-    assert!(amount >= 0 && bf0 >= amount, "OBL C12.burn_needs_balance");
-    assert!(bal_post(&from) == bf0 - amount && bal_post(&from) >= 0, "OBL C12.burn_removes_exact_amount: one balance (and hence the supply) drops by exactly the amount");
-    assert!(pers().changed_only(&[Words::of(&bal_key(&from))]) && inst().n_changed() == 0 && temp().n_changed() == 0 && shim::n_calls() == 0, "OBL C12.burn_frame");
-    assert!(shim::n_events() == 1 && shim::event_is(0, &(symbol_short!("burn"), from.clone()), &amount), "OBL C12.burn_event");
+    soroban_sdk::obl!(shim::authed(&from), "OBL C07.burn_needs_from: tokens are burned only under their holder's authorisation");
+    soroban_sdk::obl!(amount >= 0 && bf0 >= amount, "OBL C12.burn_needs_balance");
+    soroban_sdk::obl!(bal_post(&from) == bf0 - amount && bal_post(&from) >= 0, "OBL C12.burn_removes_exact_amount: one balance (and hence the supply) drops by exactly the amount");
+    soroban_sdk::obl!(pers().changed_only(&[Words::of(&bal_key(&from))]) && inst().n_changed() == 0 && temp().n_changed() == 0 && shim::n_calls() == 0, "OBL C12.burn_frame");
+    soroban_sdk::obl!(shim::n_events() == 1 && shim::event_is(0, &(symbol_short!("burn"), from.clone()), &amount), "OBL C12.burn_event");
     kani::cover!(amount > 0, "COVER c12_burn positive");
 }
 
@@ -222,19 +222,19 @@ fn c12_burn_from() {
 
     <T as token::Interface>::burn_from(env.clone(), spender.clone(), from.clone(), amount);
 
-    assert!(shim::authed(&spender), "OBL C07.burn_from_needs_spender");
-    assert!(amount >= 0 && bf0 >= amount, "OBL C12.burn_from_needs_balance");
-    assert!(usable(a0) >= amount, "OBL C12.burn_from_needs_live_allowance");
-    assert!(
+    soroban_sdk::obl!(shim::authed(&spender), "OBL C07.burn_from_needs_spender");
+    soroban_sdk::obl!(amount >= 0 && bf0 >= amount, "OBL C12.burn_from_needs_balance");
+    soroban_sdk::obl!(usable(a0) >= amount, "OBL C12.burn_from_needs_live_allowance");
+    soroban_sdk::obl!(
         if amount > 0 { allow_post(&from, &spender) == (a0.0 - amount, a0.1) } else { !temp().changed(&allow_key(&from, &spender)) },
         "OBL C12.burn_from_spends_allowance_exactly"
     );
-    assert!(bal_post(&from) == bf0 - amount && bal_post(&from) >= 0, "OBL C12.burn_from_removes_exact_amount: the debit is against `from`");
-    assert!(
+    soroban_sdk::obl!(bal_post(&from) == bf0 - amount && bal_post(&from) >= 0, "OBL C12.burn_from_removes_exact_amount: the debit is against `from`");
+    soroban_sdk::obl!(
         pers().changed_only(&[Words::of(&bal_key(&from))]) && temp().changed_only(&[Words::of(&allow_key(&from, &spender))]) && inst().n_changed() == 0,
         "OBL C12.burn_from_frame"
     );
-    assert!(shim::n_events() == 1 && shim::event_is(0, &(symbol_short!("burn"), from.clone()), &amount), "OBL C12.burn_from_event");
+    soroban_sdk::obl!(shim::n_events() == 1 && shim::event_is(0, &(symbol_short!("burn"), from.clone()), &amount), "OBL C12.burn_from_event");
     kani::cover!(amount > 0, "COVER c12_burn_from positive");
 }
 
@@ -252,17 +252,17 @@ fn c12_mint_from() {
     let was_minter = inst().pre_has(&DataKey::Minter(minter.clone()));
     match r {
         Ok(()) => {
-            assert!(shim::authed(&minter), "OBL C07.mint_from_needs_minter: minting in a minter's name needs that minter's own authorisation");
-            assert!(was_minter, "OBL C12.only_current_minters_mint: the address must hold the minter role at the time of the call");
-            assert!(amount >= 0, "OBL C12.mint_rejects_negative");
-            assert!(bal_post(&to) == bt0.wrapping_add(amount) && bal_post(&to) >= 0, "OBL C12.mint_adds_exact_amount: one balance (and hence the supply) grows by exactly the amount");
-            assert!(pers().changed_only(&[Words::of(&bal_key(&to))]) && inst().n_changed() == 0 && temp().n_changed() == 0 && shim::n_calls() == 0, "OBL C12.mint_frame");
-            assert!(shim::n_events() == 1 && shim::event_is(0, &(symbol_short!("mint"), minter.clone(), to.clone()), &amount), "OBL C12.mint_event");
+            soroban_sdk::obl!(shim::authed(&minter), "OBL C07.mint_from_needs_minter: minting in a minter's name needs that minter's own authorisation");
+            soroban_sdk::obl!(was_minter, "OBL C12.only_current_minters_mint: the address must hold the minter role at the time of the call");
+            soroban_sdk::obl!(amount >= 0, "OBL C12.mint_rejects_negative");
+            soroban_sdk::obl!(bal_post(&to) == bt0.wrapping_add(amount) && bal_post(&to) >= 0, "OBL C12.mint_adds_exact_amount: one balance (and hence the supply) grows by exactly the amount");
+            soroban_sdk::obl!(pers().changed_only(&[Words::of(&bal_key(&to))]) && inst().n_changed() == 0 && temp().n_changed() == 0 && shim::n_calls() == 0, "OBL C12.mint_frame");
+            soroban_sdk::obl!(shim::n_events() == 1 && shim::event_is(0, &(symbol_short!("mint"), minter.clone(), to.clone()), &amount), "OBL C12.mint_event");
             kani::cover!(amount > 0, "COVER c12_mint_from ok");
         }
         Err(e) => {
-            assert!(!was_minter && e == ContractError::NotMinter, "OBL C12.mint_err_only_for_non_minter");
-            assert!(shim::no_effects(), "OBL C12.refused_mint_no_effect");
+            soroban_sdk::obl!(!was_minter && e == ContractError::NotMinter, "OBL C12.mint_err_only_for_non_minter");
+            soroban_sdk::obl!(shim::no_effects(), "OBL C12.refused_mint_no_effect");
             kani::cover!(true, "COVER c12_mint_from err");
         }
     }
@@ -279,12 +279,12 @@ fn c12_owner_mint() {
     <T as StellarAssetInterface>::mint(env.clone(), to.clone(), amount);
 
     let owner: Option<Address> = inst().pre(&OWNER_KEY);
-    assert!(matches!(&owner, Some(o) if shim::authed(o)), "OBL C06.owner_mint_needs_owner: owner minting needs the authorisation of the owner stored at entry");
-    assert!(matches!(&owner, Some(o) if inst().pre_has(&DataKey::Minter(o.clone()))), "OBL C12.owner_mint_needs_minter_role");
-    assert!(amount >= 0 && bal_post(&to) == bt0.wrapping_add(amount), "OBL C12.owner_mint_adds_exact_amount");
-    assert!(pers().changed_only(&[Words::of(&bal_key(&to))]) && inst().n_changed() == 0 && temp().n_changed() == 0, "OBL C12.owner_mint_frame");
+    soroban_sdk::obl!(matches!(&owner, Some(o) if shim::authed(o)), "OBL C06.owner_mint_needs_owner: owner minting needs the authorisation of the owner stored at entry");
+    soroban_sdk::obl!(matches!(&owner, Some(o) if inst().pre_has(&DataKey::Minter(o.clone()))), "OBL C12.owner_mint_needs_minter_role");
+    soroban_sdk::obl!(amount >= 0 && bal_post(&to) == bt0.wrapping_add(amount), "OBL C12.owner_mint_adds_exact_amount");
+    soroban_sdk::obl!(pers().changed_only(&[Words::of(&bal_key(&to))]) && inst().n_changed() == 0 && temp().n_changed() == 0, "OBL C12.owner_mint_frame");
     let o = owner.unwrap_or(Address(0));
-    assert!(shim::n_events() == 1 && shim::event_is(0, &(symbol_short!("mint"), o, to.clone()), &amount), "OBL C12.owner_mint_event");
+    soroban_sdk::obl!(shim::n_events() == 1 && shim::event_is(0, &(symbol_short!("mint"), o, to.clone()), &amount), "OBL C12.owner_mint_event");
     kani::cover!(amount > 0, "COVER c12_owner_mint ok");
 }
 
@@ -295,10 +295,10 @@ fn c06_token_add_minter() {
     let m = addr();
     <T as InterchainTokenInterface>::add_minter(&env, m.clone());
     let owner: Option<Address> = inst().pre(&OWNER_KEY);
-    assert!(matches!(&owner, Some(o) if shim::authed(o)), "OBL C06.add_minter_needs_owner");
-    assert!(inst().post_has(&DataKey::Minter(m.clone())), "OBL C06.add_minter_grants_role");
-    assert!(inst().changed_only(&[Words::of(&DataKey::Minter(m.clone()))]) && pers().n_changed() == 0 && temp().n_changed() == 0, "OBL C06.add_minter_frame");
-    assert!(shim::n_events() == 1 && shim::event_is(0, &(Symbol::new(&env, "minter_added"), m.clone()), &()), "OBL C06.add_minter_event");
+    soroban_sdk::obl!(matches!(&owner, Some(o) if shim::authed(o)), "OBL C06.add_minter_needs_owner");
+    soroban_sdk::obl!(inst().post_has(&DataKey::Minter(m.clone())), "OBL C06.add_minter_grants_role");
+    soroban_sdk::obl!(inst().changed_only(&[Words::of(&DataKey::Minter(m.clone()))]) && pers().n_changed() == 0 && temp().n_changed() == 0, "OBL C06.add_minter_frame");
+    soroban_sdk::obl!(shim::n_events() == 1 && shim::event_is(0, &(Symbol::new(&env, "minter_added"), m.clone()), &()), "OBL C06.add_minter_event");
     kani::cover!(true, "COVER add_minter returned");
 }
 
@@ -309,10 +309,10 @@ fn c06_token_remove_minter() {
     let m = addr();
     <T as InterchainTokenInterface>::remove_minter(&env, m.clone());
     let owner: Option<Address> = inst().pre(&OWNER_KEY);
-    assert!(matches!(&owner, Some(o) if shim::authed(o)), "OBL C06.remove_minter_needs_owner");
-    assert!(!inst().post_has(&DataKey::Minter(m.clone())), "OBL C06.remove_minter_revokes_role");
-    assert!(inst().changed_only(&[Words::of(&DataKey::Minter(m.clone()))]) && pers().n_changed() == 0 && temp().n_changed() == 0, "OBL C06.remove_minter_frame");
-    assert!(shim::n_events() == 1 && shim::event_is(0, &(Symbol::new(&env, "minter_removed"), m.clone()), &()), "OBL C06.remove_minter_event");
+    soroban_sdk::obl!(matches!(&owner, Some(o) if shim::authed(o)), "OBL C06.remove_minter_needs_owner");
+    soroban_sdk::obl!(!inst().post_has(&DataKey::Minter(m.clone())), "OBL C06.remove_minter_revokes_role");
+    soroban_sdk::obl!(inst().changed_only(&[Words::of(&DataKey::Minter(m.clone()))]) && pers().n_changed() == 0 && temp().n_changed() == 0, "OBL C06.remove_minter_frame");
+    soroban_sdk::obl!(shim::n_events() == 1 && shim::event_is(0, &(Symbol::new(&env, "minter_removed"), m.clone()), &()), "OBL C06.remove_minter_event");
     kani::cover!(true, "COVER remove_minter returned");
 }
 
@@ -329,10 +329,10 @@ fn admin_change(via_set_admin: bool) {
         <T as OwnableInterface>::transfer_ownership(&env, new_owner.clone());
     }
     let prev: Option<Address> = inst().pre(&OWNER_KEY);
-    assert!(matches!(&prev, Some(p) if shim::authed(p)), "OBL C06.set_admin_needs_owner");
-    assert!(inst().post::<_, Address>(&OWNER_KEY) == Some(new_owner.clone()), "OBL C06.set_admin_successor_exact");
+    soroban_sdk::obl!(matches!(&prev, Some(p) if shim::authed(p)), "OBL C06.set_admin_needs_owner");
+    soroban_sdk::obl!(inst().post::<_, Address>(&OWNER_KEY) == Some(new_owner.clone()), "OBL C06.set_admin_successor_exact");
     let p = prev.unwrap_or(Address(0));
-    assert!(
+    soroban_sdk::obl!(
         shim::n_events() == 2 && shim::event_is(1, &(symbol_short!("set_admin"), p), &new_owner),
         "OBL C12.set_admin_event: the standard administrator-change event names the previous administrator (topic) and the new one (data)"
     );
@@ -361,18 +361,18 @@ fn c11_token_constructor() {
 
     T::__constructor(env.clone(), owner.clone(), minter.clone(), token_id, md.clone());
 
-    assert!(md.decimal <= 255 && !md.name.is_empty() && !md.symbol.is_empty(), "OBL C11.token_ctor_validates_metadata");
-    assert!(inst().post::<_, Address>(&OWNER_KEY) == Some(owner.clone()), "OBL C11.token_owned_by_deployer_arg: the token is owned by the address passed as owner (the service)");
-    assert!(inst().post::<_, BytesN<32>>(&DataKey::TokenId) == Some(token_id), "OBL C11.token_reports_id");
+    soroban_sdk::obl!(md.decimal <= 255 && !md.name.is_empty() && !md.symbol.is_empty(), "OBL C11.token_ctor_validates_metadata");
+    soroban_sdk::obl!(inst().post::<_, Address>(&OWNER_KEY) == Some(owner.clone()), "OBL C11.token_owned_by_deployer_arg: the token is owned by the address passed as owner (the service)");
+    soroban_sdk::obl!(inst().post::<_, BytesN<32>>(&DataKey::TokenId) == Some(token_id), "OBL C11.token_reports_id");
     let stored: Option<TokenMetadata> = inst().post(&shim::UnitKey("METADATA"));
-    assert!(matches!(&stored, Some(s) if s.decimal == md.decimal && s.name == md.name && s.symbol == md.symbol), "OBL C11.token_reports_metadata");
-    assert!(inst().post_has(&DataKey::Minter(owner.clone())), "OBL C11.owner_is_minter: the owner (the service) can mint for inbound transfers");
-    assert!(match &minter { Some(m) => inst().post_has(&DataKey::Minter(m.clone())), None => true }, "OBL C11.designated_minter_is_minter");
+    soroban_sdk::obl!(matches!(&stored, Some(s) if s.decimal == md.decimal && s.name == md.name && s.symbol == md.symbol), "OBL C11.token_reports_metadata");
+    soroban_sdk::obl!(inst().post_has(&DataKey::Minter(owner.clone())), "OBL C11.owner_is_minter: the owner (the service) can mint for inbound transfers");
+    soroban_sdk::obl!(match &minter { Some(m) => inst().post_has(&DataKey::Minter(m.clone())), None => true }, "OBL C11.designated_minter_is_minter");
     let mut allowed = [Words::of(&OWNER_KEY), Words::of(&DataKey::TokenId), Words::of(&shim::UnitKey("METADATA")), Words::of(&DataKey::Minter(owner.clone())), Words::of(&DataKey::Minter(owner.clone()))];
     if let Some(m) = &minter {
         allowed[4] = Words::of(&DataKey::Minter(m.clone()));
     }
-    assert!(inst().changed_only(&allowed) && pers().n_changed() == 0 && temp().n_changed() == 0, "OBL C11.minting_rights_to_service_and_designated_minter_only: no other role, balance or setting is written");
+    soroban_sdk::obl!(inst().changed_only(&allowed) && pers().n_changed() == 0 && temp().n_changed() == 0, "OBL C11.minting_rights_to_service_and_designated_minter_only: no other role, balance or setting is written");
     kani::cover!(minter.is_some(), "COVER token ctor with minter");
     kani::cover!(minter.is_none(), "COVER token ctor without minter");
 }
@@ -383,17 +383,17 @@ fn c11_token_views() {
     let _h = shim::fresh_host();
     let a = addr();
     let admin = <T as StellarAssetInterface>::admin(env.clone());
-    assert!(inst().pre::<_, Address>(&OWNER_KEY) == Some(admin), "OBL C11.view_admin_is_owner: the token reports its owner (the service) as administrator");
+    soroban_sdk::obl!(inst().pre::<_, Address>(&OWNER_KEY) == Some(admin), "OBL C11.view_admin_is_owner: the token reports its owner (the service) as administrator");
     let id = <T as InterchainTokenInterface>::token_id(&env);
     let im = <T as InterchainTokenInterface>::is_minter(&env, a.clone());
     let dec = <T as token::Interface>::decimals(env.clone());
     let name = <T as token::Interface>::name(env.clone());
     let sym = <T as token::Interface>::symbol(env.clone());
     let md: Option<TokenMetadata> = inst().pre(&shim::UnitKey("METADATA"));
-    assert!(inst().pre::<_, BytesN<32>>(&DataKey::TokenId) == Some(id), "OBL C11.view_token_id");
-    assert!(im == inst().pre_has(&DataKey::Minter(a.clone())), "OBL C11.view_is_minter");
-    assert!(matches!(&md, Some(m) if m.decimal == dec && m.name == name && m.symbol == sym), "OBL C11.view_metadata");
-    assert!(shim::no_effects() && shim::n_auth() == 0, "OBL C11.views_pure");
+    soroban_sdk::obl!(inst().pre::<_, BytesN<32>>(&DataKey::TokenId) == Some(id), "OBL C11.view_token_id");
+    soroban_sdk::obl!(im == inst().pre_has(&DataKey::Minter(a.clone())), "OBL C11.view_is_minter");
+    soroban_sdk::obl!(matches!(&md, Some(m) if m.decimal == dec && m.name == name && m.symbol == sym), "OBL C11.view_metadata");
+    soroban_sdk::obl!(shim::no_effects() && shim::n_auth() == 0, "OBL C11.views_pure");
     kani::cover!(im, "COVER token views minter");
 }
 
@@ -408,7 +408,7 @@ fn c12_burn_notrap() {
     kani::assume(shim::auth_granted(from.0) && amount >= 0 && bf0 >= amount);
     shim::set_no_trap_mode();
     <T as token::Interface>::burn(env.clone(), from.clone(), amount);
-    assert!(true, "OBL C12.burn_accepts_honest_call: an authorised burn covered by the balance is accepted");
+    soroban_sdk::obl!(true, "OBL C12.burn_accepts_honest_call: an authorised burn covered by the balance is accepted");
     kani::cover!(amount > 0, "COVER c12_burn_notrap returned");
 }
 
@@ -423,7 +423,7 @@ fn c12_mint_from_notrap() {
     kani::assume(inst().pre_has(&DataKey::Minter(minter.clone())));
     shim::set_no_trap_mode();
     let r = <T as InterchainTokenInterface>::mint_from(&env, minter.clone(), to.clone(), amount);
-    assert!(r.is_ok(), "OBL C12.current_minter_can_mint: a current minter's authorised mint of a non-negative amount is accepted");
+    soroban_sdk::obl!(r.is_ok(), "OBL C12.current_minter_can_mint: a current minter's authorised mint of a non-negative amount is accepted");
     kani::cover!(amount > 0, "COVER c12_mint_from_notrap returned");
 }
 
@@ -438,6 +438,6 @@ fn c12_approve_notrap() {
     kani::assume(shim::auth_granted(from.0) && amount >= 0 && (amount == 0 || exp >= seq));
     shim::set_no_trap_mode();
     <T as token::Interface>::approve(env.clone(), from.clone(), spender.clone(), amount, exp);
-    assert!(true, "OBL C12.approve_accepts_live_expiration: an authorised approval expiring on or after the current ledger is accepted");
+    soroban_sdk::obl!(true, "OBL C12.approve_accepts_live_expiration: an authorised approval expiring on or after the current ledger is accepted");
     kani::cover!(amount > 0 && exp == seq, "COVER c12_approve_notrap expiring this ledger");
 }
